@@ -36,7 +36,7 @@ def cases(tier, seed):
     rng = random.Random('C07|%d' % seed)
     cs = []
     # norms
-    reps = 12 if tier == 'quick' else 60
+    reps = 40 if tier == 'quick' else 200
     for d in range(1, 6):
         for ttm in (False, True):
             for tracked in (False, True):
@@ -52,7 +52,7 @@ def cases(tier, seed):
         for ttm in (False, True):
             subs = [None] + subsets(d)
             for sub in subs:
-                for r in range(4 if tier == 'quick' else 12):
+                for r in range(12 if tier == 'quick' else 40):
                     N = gens.modes(rng, d, (1, 2, 3, 4), distinct=(r % 2 == 0))
                     for form in (['list', 'int'] if sub is not None and len(sub) == 1 else ['list']):
                         cs.append({'gen': 'sum', 'N': N, 'M': gens.modes(rng, d, (1, 2, 3), distinct=False) if ttm else None,
@@ -60,12 +60,12 @@ def cases(tier, seed):
     # dot full and partial
     for d in range(1, 5 if tier == 'quick' else 6):
         for sub in [None] + subsets(d):
-            for r in range(4 if tier == 'quick' else 12):
+            for r in range(12 if tier == 'quick' else 40):
                 N = gens.modes(rng, d, (1, 2, 3, 4, 5), distinct=(r % 2 == 0))
                 cs.append({'gen': 'dot', 'N': N, 'Ra': gens.rank_profile(rng, d, 'rand', 3), 'axes': sub,
                            'Rb': gens.rank_profile(rng, d if sub is None else len(sub), 'rand', 3), 'dtype': ['f64', 'c128', 'f32', 'c128'][(r + d) % 4], 'vals': 'int'})
     # bilinear forms
-    for i in range(400 if tier == 'quick' else 4000):
+    for i in range(1500 if tier == 'quick' else 15000):
         d = rng.randint(1, 4)
         cs.append({'gen': 'bilinear', 'M': gens.modes(rng, d, (1, 2, 3, 4), distinct=False), 'N': gens.modes(rng, d, (1, 2, 3, 5), distinct=False),
                    'Rx': gens.rank_profile(rng, d, 'rand', 3), 'RA': gens.rank_profile(rng, d, 'rand', 3), 'Ry': gens.rank_profile(rng, d, 'rand', 3),
